@@ -172,7 +172,7 @@ impl Rec {
         std::panic::set_hook(Box::new(|_| {}));
         Rec { out, dir, shard: 0, bytes: 0, shard_limit, events: 0, seed, mode, budget, only }
     }
-    fn line(&mut self, s: String) {
+    pub fn line(&mut self, s: String) {
         self.bytes += s.len() + 1;
         self.events += 1;
         self.out.write_all(s.as_bytes()).unwrap();
@@ -193,6 +193,49 @@ impl Rec {
     pub fn finish(&mut self) {
         self.out.flush().unwrap();
         println!("EVENTS {} SHARDS {}", self.events, self.shard + 1);
+    }
+}
+
+// manual event API (used by generated straight-line programs, e.g. const-evaluated ones): the caller performed the
+// real calls itself and hands over what it observed
+impl Rec {
+    pub fn ev_new(&mut self, raw: u128, after: u128) {
+        self.line(format!(
+            "{{\"ev\":\"new\",\"slot\":\"a\",\"raw\":{},\"res\":{}}}",
+            bits_json(raw),
+            obs_json(&Ok(Obs::Bits(after, String::new())))
+        ));
+    }
+    pub fn ev_with(&mut self, f: usize, i: usize, arg: u128, src_raw: u128, dst_raw: u128, store: u128) {
+        self.line(format!(
+            "{{\"ev\":\"with\",\"src\":\"a\",\"dst\":\"a\",\"field\":{},\"idx\":{},\"arg\":{},\"panic\":false,\"src_raw\":{},\"dst_raw\":{},\"raw_panic\":false,\"store\":{}}}",
+            f, i, bits_json(arg), bits_json(src_raw), bits_json(dst_raw), bits_json(store)
+        ));
+    }
+    pub fn ev_get(&mut self, f: usize, i: usize, obs: Obs) {
+        self.line(format!(
+            "{{\"ev\":\"get\",\"slot\":\"a\",\"field\":{},\"idx\":{},\"res\":{}}}",
+            f, i, obs_json(&Ok(obs))
+        ));
+    }
+    pub fn ev_raw(&mut self, raw: u128) {
+        self.line(format!("{{\"ev\":\"raw\",\"slot\":\"a\",\"res\":{}}}", obs_json(&Ok(Obs::Bits(raw, String::new())))));
+    }
+    pub fn ev_const(&mut self, which: &str, raw: u128) {
+        self.line(format!(
+            "{{\"ev\":\"const\",\"slot\":\"a\",\"which\":\"{}\",\"res\":{}}}",
+            which, obs_json(&Ok(Obs::Bits(raw, String::new())))
+        ));
+    }
+    pub fn ev_build(&mut self, args: &[Vec<u128>], raw: u128, store: u128) {
+        let a: Vec<String> = args
+            .iter()
+            .map(|e| format!("[{}]", e.iter().map(|x| bits_json(*x)).collect::<Vec<_>>().join(",")))
+            .collect();
+        self.line(format!(
+            "{{\"ev\":\"build\",\"dst\":\"a\",\"args\":[{}],\"panic\":false,\"raw\":{},\"store\":{}}}",
+            a.join(","), bits_json(raw), bits_json(store)
+        ));
     }
 }
 
